@@ -12,7 +12,10 @@ Pieces
 * ``ThreadingShim``         object to install as ``<module>.threading``.  ``Lock``/``RLock``/``Event``/``Condition``
   created through it are scheduler-aware: a thread that would block reports "blocked on L" and the scheduler runs
   somebody else (no scheduler-induced deadlock, no wall-clock guessing).  ``Thread`` started from a managed thread
-  becomes a managed thread.  Timed waits use a virtual clock that only advances when nothing else can run.
+  becomes a managed thread.  Timed waits use a virtual clock that only advances when nothing else can run;
+  with ``Scheduler.early_budget`` > 0 (default 0) up to that many timed waits may also expire EARLY, i.e. while other
+  threads are runnable (a real OS may deschedule them for longer than the time-out): the timed-blocked threads are then
+  offered to the chooser as extra alternatives after the READY ones.
   Everything else falls through to the real ``threading`` module.
 * ``Scheduler``             one execution.  A *schedule* is the list of thread names chosen at every decision
   (start, yield, block, finish); ``ReplayChooser`` re-executes one.
@@ -212,6 +215,12 @@ class Scheduler:
         self.preemptions = 0
         self.blocks = 0
         self.vclock = 0.0                  # virtual time (advances only when nobody can run)
+        # nondeterministic EARLY expiry of timed waits: a real OS may deschedule the runnable threads for longer
+        # than somebody's timeout, so a timed wait can also expire while others are runnable.  While
+        # early_used < early_budget, _decide offers the timed-blocked threads (other than the deciding one) to the
+        # chooser as extra alternatives after the READY ones.  0 = a timed wait expires only when nobody can run.
+        self.early_budget = 0
+        self.early_used = 0
         self.aborting = False
         self.deadlock: list | None = None  # [(thread, blocked)] if every live thread was blocked
         self.watchdog_fired = False
@@ -335,7 +344,15 @@ class Scheduler:
             t.timed_out = True
             t.state = READY
             enabled = [t]
+        if self.early_used < self.early_budget:
+            extra = [t for t in self.threads if t.state == BLOCKED and t.deadline is not None and t is not cur]
+            if extra:
+                enabled = enabled + extra          # READY ones first: choosers' defaults never expire anything early
         nxt = self.chooser(self, cur, kind, enabled)
+        if nxt.state == BLOCKED:                   # an offered timed wait expires early
+            nxt.timed_out = True
+            nxt.state = READY
+            self.early_used += 1
         self.schedule.append(nxt.idx)
         if kind == K_YIELD and nxt is not cur:
             self.preemptions += 1
@@ -496,7 +513,7 @@ class _DFSChooser:
         if d < len(st):
             e = st[d]
             t = s.threads[e[0][e[1]]] if e[0][e[1]] < len(s.threads) else None
-            if t is None or t.state != READY:
+            if t is None or t not in enabled:      # (membership, not state: an offered timed wait is still BLOCKED)
                 s.diverged = f"DFS prefix not reproducible at decision {d}"
                 raise Divergence(s.diverged)
             return t
